@@ -50,6 +50,7 @@ func main() {
 	list := flag.Bool("list", false, "list harnesses")
 	maxPaths := flag.Int("maxpaths", 0, "path budget per harness")
 	flag.Parse()
+	interp.DebugPC = os.Getenv("VERIF_DEBUG") != ""
 	if *tier == "" {
 		*tier = "quick"
 	}
